@@ -3083,6 +3083,42 @@ func (h *hmapType) checkCtor() {
 				})
 				return true
 			})
+			if !okGuard && !fi.Obj.Exported() {
+				// an unexported constructor is reachable only from this package: every caller hands it a
+				// positive constant capacity
+				pi := -1
+				k := 0
+				for _, f := range fi.Decl.Type.Params.List {
+					for _, nm := range f.Names {
+						if info.Defs[nm] == obj {
+							pi = k
+						}
+						k++
+					}
+				}
+				calls, good := 0, 0
+				if pi >= 0 {
+					for _, g := range h.p.Funcs {
+						if g.Decl.Body == nil || g.Obj.Pkg() != fi.Obj.Pkg() {
+							continue
+						}
+						ginfo := g.Pkg.TypesInfo
+						ast.Inspect(g.Decl.Body, func(n ast.Node) bool {
+							if call, ok := n.(*ast.CallExpr); ok && calleeFunc(ginfo, call) == fi.Obj && pi < len(call.Args) {
+								calls++
+								if kk, isC := constIntOf(ginfo, call.Args[pi]); isC && kk > 0 {
+									good++
+								}
+							}
+							return true
+						})
+					}
+				}
+				if calls > 0 && calls == good {
+					h.r.OK(h.pre+".ctor", c, pos, fmt.Sprintf("unexported; all %d callers pass a positive constant capacity", calls))
+					continue
+				}
+			}
 			h.r.Check(okGuard, h.pre+".ctor", c, pos, "a zero capacity is normalised before the table is made",
 				"the table is made with the caller's capacity `"+id.Name+"` as it is: "+fi.Obj.Name()+"(0, ...) builds a collection without buckets and the first lookup divides by zero")
 		}
@@ -3215,6 +3251,41 @@ func (h *hmapType) checkTableInstall() {
 		info := fi.Pkg.TypesInfo
 		rn := recvName(fi)
 		installs, rebuckets, zeroes := false, false, false
+		// bucket stores are looked for in the method and in the same-package helpers it calls (a rehash
+		// split into a table-building helper and an installer)
+		seen := map[*core.FuncInfo]bool{}
+		var scan func(f *core.FuncInfo, depth int)
+		scan = func(f *core.FuncInfo, depth int) {
+			if f == nil || f.Decl.Body == nil || seen[f] || depth > 3 {
+				return
+			}
+			seen[f] = true
+			finfo := f.Pkg.TypesInfo
+			ast.Inspect(f.Decl.Body, func(m ast.Node) bool {
+				switch v := m.(type) {
+				case *ast.CallExpr:
+					if depth < 3 {
+						if fn := calleeFunc(finfo, v); fn != nil && fn.Pkg() == h.t.Obj().Pkg() {
+							if callee := h.p.FuncOf(fn); callee != nil && callee != fi {
+								scan(callee, depth+1)
+							}
+						}
+					}
+				case *ast.AssignStmt:
+					for i, l := range v.Lhs {
+						if lv, ok := ast.Unparen(l).(*ast.IndexExpr); ok && i < len(v.Rhs) {
+							if _, isPtr := finfo.TypeOf(lv).(*types.Pointer); isPtr {
+								if rid, ok := ast.Unparen(v.Rhs[i]).(*ast.Ident); ok && rid.Name != "nil" {
+									rebuckets = true
+								}
+							}
+						}
+					}
+				}
+				return true
+			})
+		}
+		scan(fi, 0)
 		ast.Inspect(fi.Decl.Body, func(m ast.Node) bool {
 			as, ok := m.(*ast.AssignStmt)
 			if !ok {
@@ -3230,14 +3301,6 @@ func (h *hmapType) checkTableInstall() {
 						if lv.Sel.Name == "count" && i < len(as.Rhs) {
 							if k, isC := constIntOf(info, as.Rhs[i]); isC && k == 0 {
 								zeroes = true
-							}
-						}
-					}
-				case *ast.IndexExpr:
-					if i < len(as.Rhs) {
-						if _, isPtr := info.TypeOf(lv).(*types.Pointer); isPtr {
-							if rid, ok := ast.Unparen(as.Rhs[i]).(*ast.Ident); ok && rid.Name != "nil" {
-								rebuckets = true
 							}
 						}
 					}
